@@ -83,9 +83,13 @@ class Transport(StringTransport):
 
 
 class Real(object):
-    def __init__(self, variant, unit, proto=None):
+    def __init__(self, variant, unit, proto=None, preset=False):
         self.variant = variant
         self.unit = unit
+        # preset: every request object handed to execute() already carries a transaction id - the id of a request that is still
+        # outstanding (what re-executing an earlier request object, or building one with transaction=..., gives); execute() has
+        # to allocate a fresh id all the same
+        self.preset = bool(preset)
         self.kind = proto or ('tcp' if variant == 'dict' else 'serial')
         if self.kind == 'udp':
             # datagram client: no connection state (its _buildResponse never fails); same matching code
@@ -152,6 +156,10 @@ class Real(object):
         self.next_id += 1
         self.pending_write = rid
         request = ReadHoldingRegistersRequest(rid & 0xFFFF, 1, unit=self.unit)
+        if self.preset:
+            table = getattr(self.proto.transaction, 'transactions', None)
+            pending = [k for k in table.keys() if k] if isinstance(table, dict) else []
+            request.transaction_id = pending[0] if pending else 7
         d = self.proto.execute(request)
         self.by_deferred[id(d)] = (rid, d)
 
@@ -294,7 +302,7 @@ class Real(object):
 def run_real(case):
     """returns (segs, final state).  `join` = indices of reply ops delivered in the same dataReceived as the
     reply op just before them"""
-    r = Real(case['variant'], case.get('unit', 1), case.get('proto'))
+    r = Real(case['variant'], case.get('unit', 1), case.get('proto'), preset=case.get('preset'))
     ops = case['ops']
     join = set(case.get('join', []))
     segs = []
@@ -578,8 +586,8 @@ class Sim(object):
     """generator-side bookkeeping: runs the history on the real client while it is generated, so that replies can
     be aimed at tids that are outstanding (by the trace), answered already, or never issued"""
 
-    def __init__(self, variant, unit, proto=None):
-        self.real = Real(variant, unit, proto)
+    def __init__(self, variant, unit, proto=None, preset=False):
+        self.real = Real(variant, unit, proto, preset=preset)
         self.ops, self.join = [], []
         self.out = {}        # id -> tid (written, not fired)
         self.answered = []
@@ -598,6 +606,8 @@ class Sim(object):
 
     def case(self, tag):
         c = dict(kind='hist', variant=self.real.variant, unit=self.real.unit, ops=self.ops, join=self.join, tag=tag)
+        if self.real.preset:
+            c['preset'] = True
         if self.real.kind in ('udp', 'factory'):
             c['proto'] = self.real.kind
         return c
@@ -625,7 +635,7 @@ def pick_unit(rng):
 
 
 def gen_random(rng, variant, max_out, length, tag='random', proto=None):
-    s = Sim(variant, pick_unit(rng), proto)
+    s = Sim(variant, pick_unit(rng), proto, preset=rng.random() < 0.3)
     if proto == 'udp' or rng.random() < 0.93:
         s.push(['made'])
     burst = 0
